@@ -73,8 +73,8 @@ CLAUSES = {
         "proved [ideal, C18_parallax_correction_closed_form; closed form (pins the code): a transcription of the repaired code, no property by itself; Angle arguments, float distance != 0 and height, observer latitude with cos != 0; the final right_ascension + delta_alpha is left as the model's Angle.__add__]",
     "parallax correction in declination tends to 0 as distance grows: |sin dec' - sin dec| <= 2q/(1-q), q = rho sin(8.794'')/distance":
         "proved [spec function topo_dec, tied to the code by C18_parallax_correction_closed_form; every declination of the body and hour angle; 2q/(1-q) is about TWICE the horizontal parallax: weaker than the property's bound, it only shows the 1/distance decay]",
-    "parallax_correction never displaces by more than the horizontal parallax and tends to 0 with distance":
-        "proved [ideal, C18_parallax_displacement_bound, tied to the code by C18_parallax_correction_closed_form; measure: angle theta between the geocentric direction (ra, dec) and the returned direction (ra + delta_alpha, dec'); for distance > C = (1+|h|/a) sin 8.794'' (4.3e-5 AU): sin theta <= rho sin(8.794'')/distance <= C/distance and cos theta > 0, i.e. theta <= asin(rho sin pi/distance), rho <= 1+|h|/a the observer's geocentric distance (C18_rho_bound; rho = 1 only at sea level on the equator: the literal bound asin(sin pi/distance) is exceeded by the factor rho <= 1.0015 at 9000 m); every declination and hour angle; the hypothesis holds on the whole range |h| <= 9000 m, distance >= 1e-3 AU (C18_parallax_range, C <= 4.3e-5); tan(delta_alpha) in Meeus' form: C18_parallax_dalpha_tan]",
+    "parallax corrections never displace by more than the horizontal parallax asin(sin 8.794''/distance) and tend to 0 with distance":
+        "proved for the observer's own parallax [ideal, C18_parallax_displacement_bound (parallax_correction, quick) / T18_parallax_ecliptical_displacement_bound (thorough), tied to the code by the closed forms; measure: angle theta between the geocentric direction and the returned direction; for distance > C = (1+|h|/a) sin 8.794'' (C <= 4.3e-5 AU on the whole range: C18_parallax_range): sin theta <= rho sin(8.794'')/distance <= C/distance, cos theta > 0, rho <= 1+|h|/a the observer's geocentric distance (C18_rho_bound)]. The LITERAL bound asin(sin 8.794''/distance) is what the oracle applies: it follows from the theorem for rho <= 1 (every observer at or below the reference ellipsoid, h <= 0) and is exceeded, by at most the factor rho <= 1 + h/a <= 1.0015, by an observer above the ellipsoid near the equator - that geometric excess is the known finding parallax-exceeds-horizontal-parallax-elevated-observer (envelope: h > 0, rho > 1, displacement <= asin(rho sin 8.794''/distance) with the observer's own rho); anything beyond it is reported as parallax-correction-exceeds-horizontal / parallax-ecliptical-exceeds-horizontal; tan(delta_alpha) in Meeus' form: C18_parallax_dalpha_tan",
     "parallax_ecliptical: closed form, returned latitude = latitude of the topocentric vector, displacement <= horizontal parallax, -> 0 with distance":
         "proved [ideal, THOROUGH-TIER obligations T18_parallax_ecliptical_closed_form (pins the code: transcription, all three branches of the latitude folding; hypotheses n != 0, asin argument in [-1,1], distance != 0), T18_ecliptical_latitude (folded atan2(cos lon' Z, n) = atan2(Z, hypot(n, Y))), T18_parallax_ecliptical_displacement_bound (same measure and constants as for parallax_correction: sin theta <= rho sin(8.794'')/distance <= C/distance, cos theta > 0, for n != 0 and distance > C), T18_ecliptical_semidiameter (asin argument = sin(semidiameter)/|w|) and T18_ecliptical_topocentric_distance ((1-q)^2 <= |w|^2 <= (1+q)^2)]; quick tier: searched (independent vector computation 1e-9 rad, bound, semidiameter)",
     "binary64 rounding of all of the above": "unproved (searched); correspondence stage ties binary64 runs to the model text bit for bit",
@@ -495,6 +495,23 @@ class Oracle:
             self.add("distance-andoyer-range", "distance(%s) / (a sigma) = %r outside [1-2f, 1+f], f = %r" % (args, ratio, f), inp, code)
 
     # -- parallax
+    def horizontal_parallax_clause(self, key, code, disp, dist, rho, h, inp, rep):
+        """the property's literal clause: displacement <= asin(sin 8.794''/distance).  An observer ABOVE the
+        reference ellipsoid (h > 0, geocentric distance rho > 1 equatorial radius) legitimately exceeds it by
+        at most the factor rho <= 1 + h/a (proved: C18_parallax_displacement_bound, C18_rho_bound); exactly
+        that excess goes to the bounded key below, anything beyond stays the violation key."""
+        literal = math.asin(min(1.0, SIN_PI0 / dist))
+        if disp <= literal * (1 + 1e-9) + 1e-12:
+            return
+        own = math.asin(min(1.0, rho * SIN_PI0 / dist))
+        if h > 0.0 and rho > 1.0 and disp <= own * (1 + 1e-9) + 1e-12:
+            self.add("parallax-exceeds-horizontal-parallax-elevated-observer",
+                     "%s displaces by %r rad = %.6f x the horizontal parallax asin(sin 8.794''/d) = %r; observer at h = %r m, rho = %.6f (<= 1 + h/a)"
+                     % (code, disp, disp / literal, literal, h, rho), inp, rep)
+        else:
+            self.add(key, "%s displaces by %r rad > horizontal parallax %r (observer's own bound asin(rho sin pi/d) = %r, rho = %r)"
+                     % (code, disp, literal, own, rho), inp, rep)
+
     def check_parallax_eq(self, ra, dec, lat, dist, H, h):
         A = self.Angle
         code = "Earth.parallax_correction(Angle(%r), Angle(%r), Angle(%r), %r, Angle(%r), %r)" % (ra, dec, lat, dist, H, h)
@@ -516,8 +533,7 @@ class Oracle:
         if denom <= 1e-15 and (not -90.0 <= tdec <= 90.0 or not disp <= bound * (1 + 1e-9) + 1e-12):
             self.add("parallax-correction-near-pole", "%s = (%r, %r): body nearer to the celestial pole than its parallax, result displaced by %r rad (horizontal parallax %r)" % (code, tra, tdec, disp, bound), inp, rep)
             return
-        if not disp <= bound * (1 + 1e-9) + 1e-12:
-            self.add("parallax-correction-exceeds-horizontal", "%s displaces by %r rad > horizontal parallax %r" % (code, disp, bound), inp, rep)
+        self.horizontal_parallax_clause("parallax-correction-exceeds-horizontal", code, disp, dist, rho, h, inp, rep)
         # independent vector computation: observer at local sidereal time theta = ra + H
         th = math.radians(ra + H)
         k = SIN_PI0 / dist
@@ -543,9 +559,7 @@ class Oracle:
             return
         v = unit(math.radians(tlon), math.radians(tlat))
         disp = sep(u, v)
-        bound = math.asin(min(1.0, rho * SIN_PI0 / dist))
-        if not disp <= bound * (1 + 1e-9) + 1e-12:
-            self.add("parallax-ecliptical-exceeds-horizontal", "%s displaces by %r rad > horizontal parallax %r" % (code, disp, bound), inp, rep)
+        self.horizontal_parallax_clause("parallax-ecliptical-exceeds-horizontal", code, disp, dist, rho, h, inp, rep)
         t, ep = math.radians(sid), math.radians(eps)
         ox, oy, oz = rc * math.cos(t), rc * math.sin(t), rs
         ex, ey, ez = ox, oy * math.cos(ep) + oz * math.sin(ep), -oy * math.sin(ep) + oz * math.cos(ep)
@@ -608,6 +622,7 @@ def search(rng, tier, deep):
         O.check_parallax_ecl(rng.uniform(0, 360), rng.choice([-5.0, -1e-9, 0.0, 1e-9, 5.0]) if rng.random() < 0.3 else rng.uniform(-89, 89),
                              rng.uniform(0.001, 0.3), lat, rng.uniform(22, 24.5), rng.uniform(0, 360), dist, h)
     O.check_parallax_eq(30.0, 89.5, 0.0, 0.0025, 0.0, 0.0)
+    O.check_parallax_eq(0.0, 0.0, -0.1, 1.0, 90.0, 9000.0)      # elevated observer: literal bound exceeded by the factor rho
     O.check_parallax_eq(56.7, -90.0, 59.8, 5.27, 334.5, 0.0)
     O.check_parallax_eq(339.530208, -15.771083, 33.356111, 0.37276, 288.7958, 0.0)
     O.check_parallax_ecl(10.0, -5.0, 0.2709722222222222, 50.08550000000001, 23.46688888888889, 209.76886111111114, 0.0024650163, 0.0)
